@@ -110,8 +110,20 @@ def normalize (n : Bytes) : Bytes := n.map (fun c => if keepChar c then c else 4
 /-- `t.Name()` -/
 def Task.displayName (t : Task) : Bytes := if t.label = [] then t.name else t.label
 
-def sumKey (t : Task) : Bytes := normalize t.displayName
-def tsKey (t : Task) : Bytes := normalize t.name
+/-- `stateFilename` (fix N): the normalised name when normalisation leaves the name unchanged;
+otherwise the normalised name, `-`, and a TAG of the original name.  In the code the tag is 16 hex
+digits of `xxh3.HashString(name)`; the model's tag is the name itself — the 64-bit hash is
+IDEALISED AS INJECTIVE (as `HashInj` does for the checksum), and a tag is assumed never to be the
+tail of another task's unnormalised name.  With this tag `stateKey` is injective outright
+(`stateKey_inj`): distinct names never share a state file.  The harness maps real file names back
+by recomputing xxh3 of the names it generated. -/
+def stateKey (n : Bytes) : Bytes := if normalize n = n then n else normalize n ++ 45 :: n
+
+/-- the rule before fix N: `normalizeFilename` alone (used only to state the old-rule collision) -/
+def oldKey (n : Bytes) : Bytes := normalize n
+
+def sumKey (t : Task) : Bytes := stateKey t.displayName
+def tsKey (t : Task) : Bytes := stateKey t.name
 
 /-! ### sources, stream -/
 
@@ -173,26 +185,25 @@ def sumCheck (H : Bytes → Bytes) (pr : Proj) (t : Task) (dry : Bool) (s : Stat
 
 def maxOf (l : List Nat) : Nat := l.foldl Nat.max 0
 
-/-- `TimestampChecker.IsUpToDate` (as patched by TS1/TS2), in statement order: every non-negated
-`generates` entry must match an existing file (`gensOk`, as for checksum — computed, not yet
-returned); the marker joins the generates if it exists, else it is CREATED (if not dry, mtime =
-now) without joining them; nothing to compare with ⇒ `false` (the marker just created stays);
-`upToDate` = no source newer than the newest generate/marker AND the generates exist; the marker
-is TOUCHED only when not dry and NOT `upToDate` (the task is going to run).  A check that ends in
-"up to date" therefore leaves an existing marker exactly as it was. -/
+/-- `TimestampChecker.IsUpToDate` (as patched by TS1/TS2 and fix M), in statement order: every
+non-negated `generates` entry must match an existing file (`gensOk`, as for checksum — computed,
+not yet returned); the marker joins the generates if it exists; `touch` (the closure
+`touchMarker`) = nothing when dry, else the marker is created if absent and its mtime set to now;
+nothing to compare with ⇒ `touch`, `false`; `upToDate` = no source newer than the newest
+generate/marker AND the generates exist; `upToDate` ⇒ NOTHING changes (no marker is created, none
+is moved); otherwise `touch`, `false` — the task is going to run. -/
 def tsCheck (t : Task) (dry : Bool) (now : Nat) (s : State) : State × Bool :=
   let srcs := srcsNow t s.files
   let gens := globs (nowPats t.generates s.files)
   let ge := gensOk t s.files
   let mk := aget s.marks (tsKey t)
   let gts := gens.map (mtimeOf s.files) ++ (match mk with | some m => [m] | none => [])
-  let s1 := if dry then s else if mk.isSome then s else { s with marks := aset s.marks (tsKey t) now }
-  if gts.isEmpty then (s1, false)
+  let touch := if dry then s else { s with marks := aset s.marks (tsKey t) now }
+  if gts.isEmpty then (touch, false)
   else
     let upd := srcs.any (fun p => decide (maxOf gts < mtimeOf s.files p))
     let up := !upd && ge
-    let s2 := if dry || up then s1 else { s1 with marks := aset s1.marks (tsKey t) now }
-    (s2, up)
+    if up then (s, true) else (touch, false)
 
 def srcCheck (H : Bytes → Bytes) (pr : Proj) (t : Task) (dry : Bool) (now : Nat) (s : State) : State × Bool :=
   match t.method with
